@@ -22,7 +22,7 @@ RULE = ('each case = one endpoint (either role) brought to a random connection s
         'frame limits, valid/invalid header lists; non-trivial = at least one raising call judged; distinct = hash of the '
         'call list with outcomes')
 MINIMA = {'calls_judged': 50000, 'raising_calls_output_checked': 10000, 'lookup_forgotten_judged': 500,
-          'lookup_never_used_judged': 500, 'documented_range_errors': 500}
+          'lookup_never_used_judged': 500, 'documented_range_errors': 500, 'setups_with_unacknowledged_data': 500}
 BIG = [2 ** 31 - 1, 2 ** 31, 2 ** 31 + 1, 2 ** 32, 2 ** 64]
 
 
@@ -48,6 +48,17 @@ def run_case(idx, rng, tier, rep):
                 if r.ok:
                     live.append(h.e_next)
                     h.e_next += 2
+        # received and not yet acknowledged flow-controlled data: only then can an acknowledgement produce output
+        if live and rng.random() < 0.5:
+            for s0 in live:
+                st0 = getattr(h.c.streams.get(s0), 'state_machine', None)
+                if st0 is None or getattr(st0.state, 'name', '') not in ('OPEN', 'HALF_CLOSED_LOCAL') or not getattr(st0, 'headers_received', False):
+                    continue
+                for _ in range(3):
+                    if not h.send(wire.build_data(s0, b'd' * 16000)).ok:
+                        break
+                rep.count('setups_with_unacknowledged_data')
+                break
         if closed_rem and rng.random() < 0.6:
             h.cleanup()
             forgotten, closed_rem = closed_rem, []
@@ -227,7 +238,7 @@ def run_case(idx, rng, tier, rep):
                          depends_on=rng.choice([None, 0, 1, 3, sid] + BIG), exclusive=rng.choice([None, True, False]))
             judge(op, res, False)
         elif op == 'ack':
-            n = rng.choice([0, 1, 100, 65535, -1, 2 ** 31, 2 ** 64])
+            n = rng.choice([0, 1, 100, 32768, 40000, 48000, 65535, -1, 2 ** 31, 2 ** 64])
             res = t.call('acknowledge_received_data', n, sid)
             rv = n < 0 or sid <= 0
             # acknowledge_received_data alone may ignore forgotten streams: only never-used ids are judged
